@@ -33,8 +33,24 @@ func permutations(n int) [][]int {
 // checkArrivalOrderIndependence interprets every index re-ordering consumer on every arrival order of a
 // small batch (one record of which is the reference record where the writer treats it specially):
 // the bytes written (or records forwarded) must not depend on the arrival order.
-func checkArrivalOrderIndependence(c *core.Ctx, rule string) int {
+func checkArrivalOrderIndependence(c *core.Ctx, rule string, only ...string) int {
 	n := 0
+	want := func(name string) bool {
+		if len(only) == 0 {
+			return true
+		}
+		for _, o := range only {
+			if o == name {
+				return true
+			}
+		}
+		return false
+	}
+	und := func(name string) {
+		if want(name) {
+			c.Und(rule+"/"+name, token.NoPos, "UNRESOLVED anchor %s", name)
+		}
+	}
 	type consumer struct {
 		name string
 		pos  token.Pos
@@ -57,7 +73,7 @@ func checkArrivalOrderIndependence(c *core.Ctx, rule string) int {
 	}{{"WriteAlignment", nil}, {"WriteWrapAlignment", map[string]eval.Value{"wrap": eval.K(2)}}} {
 		fn := c.LookupFunc("pkg/fastaio", w.name)
 		if fn == nil || recT == nil {
-			c.Und(rule+"/"+w.name, token.NoPos, "UNRESOLVED anchor fastaio.%s", w.name)
+			und("fastaio." + w.name)
 			continue
 		}
 		sc := w.sc
@@ -93,7 +109,7 @@ func checkArrivalOrderIndependence(c *core.Ctx, rule string) int {
 			return out, err
 		}})
 	} else {
-		c.Und(rule+"/snps.writeOutput", token.NoPos, "UNRESOLVED anchor")
+		und("snps.writeOutput")
 	}
 	// updown.writeOutput
 	if fn, lt := c.LookupFunc("pkg/updown", "writeOutput"), namedType(c, "pkg/updown", "updownLine"); fn != nil && lt != nil {
@@ -113,7 +129,7 @@ func checkArrivalOrderIndependence(c *core.Ctx, rule string) int {
 			return out, err
 		}})
 	} else {
-		c.Und(rule+"/updown.writeOutput", token.NoPos, "UNRESOLVED anchor")
+		und("updown.writeOutput")
 	}
 	// variants.WriteVariants, with the reference record in the middle of the file
 	if fn := c.LookupFunc("pkg/variants", "WriteVariants"); fn != nil {
@@ -129,7 +145,7 @@ func checkArrivalOrderIndependence(c *core.Ctx, rule string) int {
 			return evalWriteVariants(c, feed, -1, -1, false, false, "ref")
 		}})
 	} else {
-		c.Und(rule+"/variants.WriteVariants", token.NoPos, "UNRESOLVED anchor")
+		und("variants.WriteVariants")
 	}
 	// updown.reorderRecords (forwards on a channel)
 	if fn, lt := c.LookupFunc("pkg/updown", "reorderRecords"), namedType(c, "pkg/updown", "updownLine"); fn != nil && lt != nil {
@@ -166,7 +182,7 @@ func checkArrivalOrderIndependence(c *core.Ctx, rule string) int {
 			return strings.Join(ids, ","), nil
 		}})
 	} else {
-		c.Und(rule+"/updown.reorderRecords", token.NoPos, "UNRESOLVED anchor")
+		und("updown.reorderRecords")
 	}
 	// sam.writePairwiseAlignment (stdout)
 	if fn, pt := c.LookupFunc("pkg/sam", "writePairwiseAlignment"), namedType(c, "pkg/sam", "alignPair"); fn != nil && pt != nil {
@@ -194,10 +210,13 @@ func checkArrivalOrderIndependence(c *core.Ctx, rule string) int {
 			return sb.String(), nil
 		}})
 	} else {
-		c.Und(rule+"/sam.writePairwiseAlignment", token.NoPos, "UNRESOLVED anchor")
+		und("sam.writePairwiseAlignment")
 	}
 	perms := permutations(4)
 	for _, cn := range cons {
+		if !want(cn.name) {
+			continue
+		}
 		n++
 		ref, err := cn.run([]int{0, 1, 2, 3})
 		if err != nil {
